@@ -237,7 +237,7 @@ def minimise_and_write(prop, tier, item):
 
 def tree_id():
     h = hashlib.sha256()
-    src = "/repo/src/basictdf"
+    src = os.path.join(os.environ.get("VERIF_REPO_SRC", "/repo/src"), "basictdf")
     for n in sorted(os.listdir(src)):
         if n.endswith(".py"):
             with open(os.path.join(src, n), "rb") as f:
@@ -320,6 +320,8 @@ STUB = ["kernel file layer -> SimRaw/SimDisk (in-memory, with raw-level log, sho
 
 
 def write_evidence(prop, tier, base, agg, wall, nviol, knownhits, replay_paths):
+    if os.environ.get("VERIF_NO_EVIDENCE"):
+        return
     st = agg["stats"]
     engine = engine_of(prop)
     faults = {k: n for k, n in sorted(st.items()) if k.startswith("fault_") or k.startswith("decodes_under_poison")
